@@ -160,6 +160,23 @@ impl Out {
         *self.per_op.entry(op).or_insert(0) += 1;
     }
 
+    /// precedence of two versions given as texts (so that the parser's classification of identifiers
+    /// takes part)
+    pub fn vcmpt(&mut self, a: &str, b: &str) {
+        let ans = guarded(|| match (Version::parse(a), Version::parse(b)) {
+            (Ok(x), Ok(y)) => {
+                let ord = match x.cmp(&y) {
+                    std::cmp::Ordering::Less => "lt",
+                    std::cmp::Ordering::Equal => "eq",
+                    std::cmp::Ordering::Greater => "gt",
+                };
+                format!("{} beq={}", ord, b01(x == y))
+            }
+            _ => "perr".to_string(),
+        });
+        self.emit("vcmpt", &[hex(a), hex(b)], ans);
+    }
+
     /// `slice::sort` (stable), `Iterator::max` (last maximal), `Iterator::min` (first minimal),
     /// `BTreeSet` (one representative per precedence class: the first inserted)
     pub fn vsort(&mut self, vs: &[Version]) {
